@@ -82,6 +82,14 @@ let rec handler r =
       let p = num r in let q = num r in let k = integer r in
       put_wavg (weighted_average fops d); put_wavg (weighted_average fops (scale_values fops p d));
       put_wavg (weighted_average fops (scale_weights fops q d)); put_wavg (weighted_average fops (rotate_data (nat_of_int k) d))
+  | "wshift" -> let n = integer r in
+      let d = List.init n (fun _ -> let v = num r in let w = num r in (v, w)) in
+      let t = num r in
+      put_wavg (weighted_average fops d); put_wavg (weighted_average fops (shift_values fops t d))
+  | "history" -> let l = list r in
+      let ops = List.map (fun c -> match c with 0 -> OpMean | 1 -> OpVariance | 2 -> OpStddev | _ -> OpMedian) (ilist r) in
+      let (l', outs) = stat_history fops l ops in
+      List.iter put_f outs; put_fl l'
   | o -> put_w ("MODELERR unknown_op_" ^ o)
 
 let () = run handler
